@@ -11,3 +11,10 @@ package dict
 //@   ensures found: err == nil ==> avp != nil
 //@   ensures placeholder: typeis(code, uint32) ==> avp != nil
 //@ end
+//@
+//@ func (*Parser).FindCommand(p, appid, code) (cmd, err)
+//@   property C17
+//@   requires p != nil
+//@   modifies
+//@   ensures found: err == nil <==> cmd != nil
+//@ end
